@@ -2026,6 +2026,26 @@ func (db *DB) CommitJournal(ctx context.Context, mode JournalMode) (err error) {
 		return fmt.Errorf("cannot read database size: %w", err)
 	}
 
+	// SQLite does not write pages that it allocated and freed again within
+	// the transaction. When the database grows, such pages lie beyond the
+	// previous size and exist only as zero-filled holes in the file. They are
+	// part of the database image so track them as dirty and record their
+	// checksum, otherwise the database checksum would not cover them and
+	// would not match one computed from the file (e.g. on the next open).
+	for pgno := prevPageN + 1; pgno <= commit; pgno++ {
+		if _, ok := db.dirtyPageSet[pgno]; ok || pgno == ltx.LockPgno(db.pageSize) {
+			continue
+		}
+		page := make([]byte, db.pageSize)
+		if _, err := internal.ReadFullAt(dbFile, page, int64(pgno-1)*int64(db.pageSize)); err != nil && err != io.EOF && err != io.ErrUnexpectedEOF {
+			return fmt.Errorf("cannot read unwritten database page: pgno=%d err=%w", pgno, err)
+		}
+		db.chksums.mu.Lock()
+		db.setDatabasePageChecksum(pgno, ltx.ChecksumPage(pgno, page))
+		db.chksums.mu.Unlock()
+		db.dirtyPageSet[pgno] = struct{}{}
+	}
+
 	// Build sorted list of dirty page numbers.
 	pgnos := make([]uint32, 0, len(db.dirtyPageSet))
 	for pgno := range db.dirtyPageSet {
